@@ -193,7 +193,12 @@ func (ex *Exec) apiIntrinsic(name string, fn *ssa.Function, args []Value, fr *Fr
 	case "verifConcretize":
 		// fork over the alternatives of a universe string (cheap way to share harness code)
 		return StrV{s: ex.concStr(args[0].(StrV), "verifConcretize")}, true
-	case "verifSpawn", "verifSchedBound", "verifYield", "verifBlockUntil", "verifSchedEvent":
+	case "verifNewPipe", "verifPipeGarbage", "verifPipeFailReads", "verifEncodesUnlocked":
+		return ex.atpAPI(name, args, fr, pos)
+	case "verifLeakCheck":
+		ex.leakCheck = args[0].(*Term).cv != 0
+		return nil, true
+	case "verifSpawn", "verifSchedBound", "verifSchedFreeBound", "verifSchedQuiet", "verifYield", "verifBlockUntil", "verifSchedEvent":
 		return ex.schedAPI(name, args, fr, pos), true
 	}
 	return nil, false
